@@ -57,6 +57,7 @@ func HarnessErrorPages() {
 		vAssert(len(vRenders) == 1, "pages: exactly one page rendered")
 		got, ok := vRenders[0].args.(struct{ Message string })
 		vAssert(ok && got.Message == msg, "pages: template arguments reach the renderer unchanged")
+		vAssert(len(vRenders) == 1 && vRenders[0].escaping, "pages: pages are rendered by the HTML-escaping template engine")
 	}
 	vCover(customOK, "custom page reachable")
 	vCover(!customOK && builtinOK, "built-in page reachable")
@@ -149,6 +150,7 @@ func HarnessStop503() {
 			vAssert(len(vRenders) == 1, "stop: one page rendered")
 			got, ok := vRenders[0].args.(struct{ Message string })
 			vAssert(ok && got.Message == msg, "stop: the operator's message reaches the page renderer byte-identical")
+			vAssert(len(vRenders) == 1 && vRenders[0].escaping, "stop: the message is inserted by the HTML-escaping template engine")
 		}
 	case PauseStatePaused:
 		vAssert(forwarded == 0, "stop: nothing is forwarded while paused")
